@@ -22,7 +22,7 @@ from ..progs import Leaf, Node, T_G, T_A
 
 PID = "C04"
 LEVEL = "exploration"
-SHARDS = {"quick": 8, "thorough": 16}
+SHARDS = {"quick": 16, "thorough": 16}
 TIMEOUT = {"quick": 1200, "thorough": 7200}
 RULE = ("Programs = random well-typed expression trees (depth <= 6) over Exp, Log, Inv, @, Act3, Act4, Adj, AdjT, Retr, +, "
         "matrix, Jinvp (rotation >= 0.1 rad), algebra +/scale, with 1-4 leaves of mixed kinds (group / algebra / R^3 / R^4), "
@@ -76,15 +76,15 @@ def _ad2(x):
 progs._sim3_ad_norm = _ad2      # exact 2-norm of ad(xi) instead of the crude bound
 
 
-def clone_leaves(leaves, dtype=None, grad=True):
+def clone_leaves(leaves, dtype=None, grad=True, flags=None):
     out = []
-    for x in leaves:
+    for i, x in enumerate(leaves):
         t = x.tensor() if isinstance(x, pp.LieTensor) else x
         t = t.detach().clone()
         if dtype is not None:
             t = t.to(dtype)
         y = pp.LieTensor(t, ltype=x.ltype) if isinstance(x, pp.LieTensor) else t
-        y.requires_grad_(grad)
+        y.requires_grad_(bool(grad) and (flags is None or flags[i]))
         out.append(y)
     return out
 
@@ -100,15 +100,16 @@ def loss_of(tree, out, g):
     return (r * g.to(r.dtype)).sum()
 
 
-def backward_grads(ck, tree, leaves, g, entry, regime, monitor):
+def backward_grads(ck, tree, leaves, g, entry, regime, monitor, flags=None, raw_cotangent=False):
     """Run forward+backward on fresh clones; returns (grads list, out) or None if it raised."""
-    xs = clone_leaves(leaves)
+    xs = clone_leaves(leaves, flags=flags)
+    lossf = (lambda t_, o_, g_: (progs.raw(o_) * g_.to(progs.raw(o_).dtype)).sum()) if raw_cotangent else loss_of
     before = [(x.tensor() if isinstance(x, pp.LieTensor) else x).detach().clone() for x in xs]
     msg = None
     try:
         with torch.autograd.set_detect_anomaly(True):
             out = progs.evaluate(tree, xs)
-            loss_of(tree, out, g).backward()
+            lossf(tree, out, g).backward()
             out = progs.raw(out)
     except RuntimeError as e:
         msg = str(e)[:300]
@@ -118,9 +119,9 @@ def backward_grads(ck, tree, leaves, g, entry, regime, monitor):
         # anomaly mode reports a NaN produced inside some backward node; the verdict is on the
         # gradients actually returned, so repeat without anomaly mode and judge those
         ck.note_add("anomaly_reports", 1)
-        xs = clone_leaves(leaves)
+        xs = clone_leaves(leaves, flags=flags)
         out = progs.evaluate(tree, xs)
-        loss_of(tree, out, g).backward()
+        lossf(tree, out, g).backward()
         out = progs.raw(out)
     except Exception as e:  # noqa
         ck.violation(monitor, regime, entry, "backward_raised:" + type(e).__name__,
@@ -136,7 +137,7 @@ def backward_grads(ck, tree, leaves, g, entry, regime, monitor):
     return grads, out.detach(), msg
 
 
-def judge(ck, tree, types, leaves, g_seed, monitor, regime_base, entry, f32=True, front_ends=False, rng=None):
+def judge(ck, tree, types, leaves, g_seed, monitor, regime_base, entry, f32=True, front_ends=False, rng=None, flags=None):
     """One monitored program.  Returns 'ok' | 'discarded' | 'raised'."""
     show = tree.show()
     trace = progs.Trace()
@@ -166,10 +167,33 @@ def judge(ck, tree, types, leaves, g_seed, monitor, regime_base, entry, f32=True
     if tree.typ[0] == "G":
         with torch.no_grad():
             out0_inv = progs.evaluate(tree, leaves).Inv()
-    res = backward_grads(ck, tree, leaves, g, entry, regime_base, monitor)
+    if flags is not None and not any(flags):
+        flags = None
+    res = backward_grads(ck, tree, leaves, g, entry, regime_base, monitor, flags=flags)
     if res is None:
         return "raised"
     grads, out, anomaly = res
+    if flags is not None:
+        ck.mark("constants/some_leaves_do_not_require_grad")
+        for i_, f_ in enumerate(flags):
+            if not f_:
+                if grads[i_] is not None:
+                    ck.violation(monitor, regime_base, entry, "gradient_returned_for_constant_leaf", {"program": show, "leaf": i_})
+                grads[i_] = "const"
+    # group-valued output read through .tensor() with an arbitrary raw cotangent (non-zero last slot): the property's
+    # structural clauses (finite, last slot of every group leaf's grad exactly zero) hold for every upstream cotangent
+    if tree.typ[0] == "G":
+        graw = torch.randn(out0.shape, generator=gen, dtype=torch.float64)
+        rr = backward_grads(ck, tree, leaves, graw, entry, regime_base, monitor + ".rawcot", flags=flags, raw_cotangent=True)
+        if rr is not None:
+            ck.count(monitor + ".rawcot", regime_base, key=(show, int(g_seed)))
+            for x, t, gr in zip(leaves, types, rr[0]):
+                if gr is None:
+                    continue
+                ck.check(bool(torch.isfinite(gr).all()), monitor + ".rawcot", regime_base, entry, "nonfinite_gradient", {"program": show, "raw_cotangent": True})
+                if t[0] == "G":
+                    ck.check(bool((gr[..., progs.tangent_dim(t):] == 0).all()), monitor + ".rawcot", regime_base, entry, "nonzero_last_slot",
+                             {"program": show, "raw_cotangent": True, "grad": gr.tolist() if gr.numel() < 40 else None})
 
     def fun(ls):
         o = progs.evaluate(tree, ls)
@@ -186,6 +210,8 @@ def judge(ck, tree, types, leaves, g_seed, monitor, regime_base, entry, f32=True
     worst_fin = True
     # ---- structure: finite, last slot exactly zero for group leaves
     for x, t, gr in zip(leaves, types, grads):
+        if isinstance(gr, str):
+            continue
         if gr is None:
             gr = torch.zeros_like(x.tensor() if isinstance(x, pp.LieTensor) else x)
         if not torch.isfinite(gr).all():
@@ -206,6 +232,8 @@ def judge(ck, tree, types, leaves, g_seed, monitor, regime_base, entry, f32=True
         tol = 1e-6 * (1 + gmax) + 0.05 * spread + 8 * tb * (1 + gmax)
         for li, (x, t, gr, r) in enumerate(zip(leaves, types, grads, ref)):
             m = progs.tangent_dim(t)
+            if isinstance(gr, str):
+                continue
             got = torch.zeros_like(r) if gr is None else gr[..., :m].double()
             err = float((got - r).abs().max()) if r.numel() else 0.0
             ck.ratio(monitor, regime, err, tol, entry, "gradient_differs_from_finite_difference",
@@ -216,11 +244,11 @@ def judge(ck, tree, types, leaves, g_seed, monitor, regime_base, entry, f32=True
                               "trunc_bound": tb, "cotangent_seed": int(g_seed)})
     else:
         for j in range(5):
-            dirs = [torch.randn(tuple(x.shape[:-1]) + (progs.tangent_dim(t),), generator=gen, dtype=torch.float64)
-                    for x, t in zip(leaves, types)]
+            dirs = [torch.randn(tuple(x.shape[:-1]) + (progs.tangent_dim(t),), generator=gen, dtype=torch.float64) *
+                    (0.0 if isinstance(gr_, str) else 1.0) for x, t, gr_ in zip(leaves, types, grads)]
             ref, spread = progs.fd_directional(fun, leaves, types, dirs)
             got = sum(float((gr[..., :progs.tangent_dim(t)].double() * d).sum()) for gr, t, d in zip(grads, types, dirs)
-                      if gr is not None)
+                      if gr is not None and not isinstance(gr, str))
             scale = sum(float(d.abs().sum()) for d in dirs)
             gmax = abs(ref) / max(scale, 1.0)
             tol = (1e-6 * (1 + gmax) + 8 * tb * (1 + gmax)) * scale + 0.05 * spread
@@ -230,13 +258,13 @@ def judge(ck, tree, types, leaves, g_seed, monitor, regime_base, entry, f32=True
     # ---- float32: finite and sqrt(eps)-level agreement with float64
     if f32:
         l32 = clone_leaves(leaves, torch.float32, grad=False)
-        r32 = backward_grads(ck, tree, l32, g, entry, regime + "/f32", monitor + ".f32")
+        r32 = backward_grads(ck, tree, l32, g, entry, regime + "/f32", monitor + ".f32", flags=flags)
         if r32 is not None:
             g32, _, an32 = r32
             ck.count(monitor + ".f32", regime, key=key)
-            gmax = max([float(x.abs().max()) for x in grads if x is not None and x.numel()] + [0.0])
+            gmax = max([float(x.abs().max()) for x in grads if x is not None and not isinstance(x, str) and x.numel()] + [0.0])
             for t, a, b in zip(types, g32, grads):
-                if a is None or b is None:
+                if a is None or b is None or isinstance(b, str):
                     continue
                 if not torch.isfinite(a).all():
                     ck.violation(monitor + ".f32", regime, entry, "nonfinite_gradient",
@@ -252,7 +280,7 @@ def judge(ck, tree, types, leaves, g_seed, monitor, regime_base, entry, f32=True
                          "float32_gradient_far_from_float64", lambda: {"program": show, "g32": a.tolist() if a.numel() < 40 else None,
                                                                         "g64": b.tolist() if b.numel() < 40 else None})
     # ---- Jacobian front-ends contracted with the same cotangent
-    if front_ends and tree.typ[0] != "G":
+    if front_ends and tree.typ[0] != "G" and flags is None:
         check_front_ends(ck, tree, types, leaves, g, grads, regime, entry, show)
     return "ok"
 
@@ -362,8 +390,18 @@ def run(ck):
                 cases.append((k, op, (a, b), r, mode))
     reps = 4 if thorough else 1
     ci = 0
+    BCAST = [((), (3,)), ((2,), ()), ((1,), (2,)), ((2, 1), (1, 3)), ((), (2, 2))]
+    variants = []
     for rep in range(reps):
         for (k, op, args, r, mode) in cases:
+            variants.append((rep, k, op, args, r, mode, None, None))
+            if len(args) == 2 and mode in ("generic", "thin"):
+                # one operand broadcast against many (single pose x many points / twists, and the converse)
+                variants.append((rep, k, op, args, r, mode, BCAST[(len(variants) + rep) % len(BCAST)], None))
+                # one operand is a constant (requires_grad=False), the other a leaf
+                variants.append((rep, k, op, args, r, mode, None, [(len(variants) + rep) % 2 == 0, (len(variants) + rep) % 2 == 1]))
+    for (rep, k, op, args, r, mode, bshapes, flags) in variants:
+        if True:
             ci += 1
             if not ck.mine(ci):
                 continue
@@ -371,7 +409,7 @@ def run(ck):
             tree = Node(op, [Leaf(i, t) for i, t in enumerate(types)], typ_of(r, k))
             if op == "Jinvp" and mode in ("identity", "tiny", "thin"):
                 continue        # outside C04's stated domain (zero rotation)
-            lsh = [(), ()] if rep % 2 == 0 else lshapes_for(rng, 2)
+            lsh = list(bshapes) if bshapes is not None else [(), ()] if rep % 2 == 0 else lshapes_for(rng, 2)
             leaves = []
             for i, t in enumerate(types):
                 md = mode
@@ -401,8 +439,11 @@ def run(ck):
                 hi, lo = progs._angle_of(X)
                 if lo < 0.1:
                     continue
-            st = judge(ck, tree, types, leaves, ck.subseed(("g", ci)), "op_alone", f"{k}/{op}/{mode}", f"{k}.{op}",
-                       front_ends=(rep == 0), rng=rng)
+            st = judge(ck, tree, types, leaves, ck.subseed(("g", ci)), "op_alone",
+                       f"{k}/{op}/{mode}" + ("/bcast" if bshapes else "") + ("/const" if flags else ""), f"{k}.{op}",
+                       front_ends=(rep == 0 and bshapes is None), rng=rng, flags=flags)
+            if bshapes:
+                ck.mark("alone/broadcast")
             ck.mark(f"alone/{k}/{op}/{mode}/{st}")
     # ---------------- (2) random programs
     nprog = (1400 if thorough else 60)
@@ -430,8 +471,9 @@ def run(ck):
                 else:
                     x = pp.LieTensor(x.tensor() * 0.3, ltype=x.ltype)
             leaves.append(x)
+        pflags = [bool(rng.random() < 0.7) for _ in types] if (len(types) > 1 and rng.random() < 0.3) else None
         st = judge(ck, tree, types, leaves, ck.subseed(("p", attempts)), "program", f"depth{depth}/{mode}", "program",
-                   front_ends=(made % 4 == 0), rng=rng)
+                   front_ends=(made % 4 == 0), rng=rng, flags=pflags)
         if st == "ok":
             made += 1
             if len(ck.samples) < 8:
@@ -473,5 +515,6 @@ def run(ck):
         if v:
             ck.mark("backward/" + k, v)
         ck.require("backward/" + k)
+    ck.require("alone/broadcast", "constants/some_leaves_do_not_require_grad")
     ck.floor("op_alone", 100)
     ck.floor("program", 20)
